@@ -459,6 +459,11 @@ func rulePreText(p *Prog, r *Report) {
 			for _, b := range fn.Blocks {
 				for _, ins := range b.Instrs {
 					if c, ok := ins.(*ssa.Call); ok {
+						if g := c.Call.StaticCallee(); g != nil && (extName(g) == "strconv.ParseInt" || extName(g) == "strconv.ParseUint") && len(c.Call.Args) == 3 {
+							if bs, ok := constInt(c.Call.Args[2]); ok && bs != 0 && bs < 64 {
+								bad = append(bad, fmt.Sprintf("%s parses numbers with a %d-bit limit (%s): an all-digit identifier beyond it is not recognised as a number and is ordered as text", fn.Name(), bs, p.Pos(c.Pos())))
+							}
+						}
 						if g := c.Call.StaticCallee(); g != nil && (extName(g) == "strings.SplitN" || extName(g) == "strings.SplitAfterN") {
 							if sep, ok := constString(c.Call.Args[1]); !ok || sep != "." {
 								continue
